@@ -6,6 +6,16 @@ from registry import PROPS, MODELS, FAMILIES
 ROOT = os.path.dirname(os.path.dirname(os.path.abspath(__file__)))
 
 TEXT = {
+ "C01": ("MC_Pool explores all bounded interleavings of deposits, single-asset deposits, withdrawals, swaps, routes, donations and toggles over two pools sharing a denom with the custody invariant and the excess rule as an action property; Trace_Pool evaluates both on the bank balances and reserves observed after every event (accepted or rejected) of every pool trace of the real contracts, all pool types.", "3 C01"),
+ "C02": ("MC_Pool checks LP accounting, supply floor and value-per-LP monotonicity for the exact constant-product formulas; Trace_Pool judges every deposit and withdrawal of the real contracts with BigNat arithmetic: mint bounded by the contribution (constant product: min of shares; stableswap: growth of the exact invariant via polynomial sign tests), pro-rata payouts within one unit, redeemability, supply floor, LP supply changed only by liquidity operations.", "3 C02"),
+ "C03": ("MC_Pool checks x*y monotonicity and a no-profit round trip through a pool for the exact formulas; Trace_Pool checks on every executed swap, hop and internal swap of the real contracts that x*y (constant product) resp. the exact Curve invariant (sign test of the integer polynomial at floor(D*), balances scaled by 10^6) does not decrease. The recorded finding F7 (rounding-size decrease on stableswap) is matched by a spec-level trigger with a three-unit residual bound.", "3 C03"),
+ "C04": ("MC_Pool checks token conservation incl. burns and fee routing for swaps and routes; Trace_Pool requires for every executed swap/route of the real contracts the exact expected balances of every tracked account and supply (receiver, fee collector, burn, nobody else), reserve updates, fee floors of the gross output, and the hop chain of routes.", "3 C04"),
+ "C12": ("Every swap and route of the pool traces is preceded by its Simulation / SimulateSwapOperations query and TLC requires equality of return and all fee amounts with the execution (routes: when pools are pairwise distinct); ReverseSimulation on constant-product pools is followed by Simulation(offer+1) which must cover the ask. No separate exploration model: the property is a relation between two calls in the same state, decided on recorded pairs.", "3 C12"),
+ "C13": ("Trace_Pool states the tolerance predicates (pool price for constant product; peg or marginal price for stableswap, permissive; belief price; minimum_receive; deposit ratio) and judges accepted and slippage-rejected swaps/routes/deposits of the real contracts; drivers bisect with the contract's own Simulation for offers straddling each tolerance. Recorded finding F5 (stableswap deposit tolerance always refuses) is matched by a spec-level trigger.", "3 C13"),
+ "C14": ("MC_Pool defines the single-asset deposit as the composition SwapEffect;DepositEffect and checks residue/custody consequences over all interleavings; Trace_Pool judges every single-asset deposit of the real contracts against the composed effect computed from the quote of the half swap (reserves, fees, minted LP, odd unit), refusal on empty/larger pools, lock only for the sender, and absence of the temporary buffer in the chain store after every event.", "3 C14"),
+ "C16": ("Trace_Pool judges every CreatePool of the enumerated parameter classes (asset counts, duplicates, decimals mismatch, amp 0, fee boundaries, under/over/extra funds, identifiers) under three fee configurations with exact expected balances, and checks immutability of every stored pool parameter and uniqueness of LP denoms after every event of every pool trace.", "3 C16"),
+ "C17": ("MC_Pool checks that disabled swaps/deposits/withdrawals never move reserves or supply on any path incl. routes and single-asset deposits; Trace_Pool checks gating of every accepted swap, hop, deposit, single-asset deposit and withdrawal of the real contracts, that toggles change only the named flags of the named pool, and that new pools start enabled; the toggle driver walks all 8 switch states over every operation kind and path.", "3 C17"),
+ "C19": ("Trace_Pool judges every stableswap quote of the real contracts against the exact invariant: bracket sign tests of the integer polynomial at floor(D*) (balances scaled by 10^6) with tolerance 2 output units + value of 2 offered units, the first-deposit D within 2 units of the exact root, output below reserve; drivers sweep n=2..4, amp 1..10^6, decimals {0,2,6,8,12,18}, reserves dust..10^30, skew, offers 1 unit..multiples of the reserve. TLC contributes checking, not exploration, for this numeric property (DESIGN section 7).", "3 C19"),
  "C05": ("MC_FarmLife explores every bounded interleaving of farm/position/claim operations (incl. reward denom = LP denom, swallowed refunds, penalty dust) with the custody invariant; Trace_Farm evaluates the same invariant on the bank balances, positions and farms observed after every event of every farm trace of the real contracts.", "3 C05"),
  "C06": ("MC_Farm checks the implementation-shaped reward mechanism against a dense reference ledger over all interleavings of open/expand/close/emergency/claim(until)/advance (no overpay, epoch budget, no starvation, cursor monotone); Trace_Farm recomputes every claim of the real contracts from the reference ledger it maintains along the trace (TLC infers the hidden claim cursor) and replays TLC-generated schedules.", "3 C06"),
  "C07": ("Same model and traces as C06: each real claim must pay exactly the reference ledger's floor(rate*w/total) sums per denom, the Rewards query issued immediately before must equal the payout, per-farm claimed_amount must advance by its share, and TLC-predicted payouts of replayed MC_Farm behaviours must equal the real payouts.", "3 C07"),
